@@ -47,6 +47,9 @@ var props = map[string]propCfg{
 	"C15": {Engine: "recovery",
 		Quick:    []phase{{"recovery", false, 30 * time.Second}, {"recovery", true, 20 * time.Second}},
 		Thorough: []phase{{"recovery", false, 8 * time.Minute}, {"recovery", true, 6 * time.Minute}}},
+	"C16": {Engine: "static",
+		Quick:    []phase{{"static", false, 35 * time.Second}, {"static", true, 20 * time.Second}},
+		Thorough: []phase{{"static", false, 10 * time.Minute}, {"static", true, 5 * time.Minute}}},
 	"C05": {Engine: "conc",
 		Quick:    []phase{{"conc", false, 25 * time.Second}, {"conc", true, 35 * time.Second}},
 		Thorough: []phase{{"conc", false, 6 * time.Minute}, {"conc", true, 12 * time.Minute}}},
@@ -182,7 +185,7 @@ func runPhase(ph phase, bin string, seed uint64, tmp string) *phaseResult {
 				ctx, cancelCtx := context.WithTimeout(context.Background(), remaining+remaining/2+120*time.Second)
 				defer cancelCtx()
 				cmd := exec.CommandContext(ctx, bin, args...)
-				cmd.Env = append(os.Environ(), "GOMAXPROCS=2", "GOGC=400")
+				cmd.Env = append(os.Environ(), "GOMAXPROCS=2", "GOGC=400", "SIM_TMP="+tmp)
 				if ph.Race {
 					cmd.Env = append(cmd.Env, "GORACE=halt_on_error=1 exitcode=66 log_path="+base+".racelog")
 				}
@@ -308,6 +311,21 @@ func mergeSummary(pr *phaseResult, mu *sync.Mutex, base string) {
 func raceClass(rep string) string { return eng.RaceClass(rep) }
 
 var harnessRaces int
+
+// driverArtefact: one of the two accesses was made by the scheduler's driver goroutine, which runs
+// with its synchronisation events hidden from the detector (that is what keeps the tasks mutually
+// concurrent); a report involving it says nothing about the code under test. The same holds for a
+// report in which no stack passes through flamego at all.
+func driverArtefact(rep string) bool {
+	first := rep
+	if i := strings.Index(rep, "Goroutine "); i > 0 {
+		first = rep[:i] // the two access stacks come before the goroutine-creation stacks
+	}
+	if strings.Contains(first, "verif/sim/internal/sched.Run()") {
+		return true
+	}
+	return !strings.Contains(first, "github.com/flamego/flamego")
+}
 
 func harnessOnly(cls string) bool {
 	parts := strings.Split(cls, " <-> ")
@@ -436,7 +454,7 @@ func main() {
 				continue
 			}
 			raceSeen[cls] = true
-			if harnessOnly(cls) {
+			if harnessOnly(cls) || driverArtefact(h.Report) {
 				// both accesses are inside the simulator: a harness artefact (seen only when the code
 				// under test hangs outside the scheduler and two goroutines overlap), never a verdict
 				fmt.Printf("harness-only race report ignored: %s\n", cls)
